@@ -17,8 +17,9 @@ var RouteTags = []string{"poll://g/i", "http://h/x", `{"type":"poll","data":{"gr
 // Hostile extends the pools with values that used to crash or corrupt the server (markup characters in
 // schedule ids, unclosed template actions, JSON literals as routing tags).
 func Hostile() {
-	SchedIds = append(SchedIds, "s&<")
-	IdTemplates = append(IdTemplates, "x.{{.timestamp")
+	SchedIds = append(SchedIds, "s&<", " s pad ")
+	// ids are whitespace-sensitive: templates and schedule ids with leading / trailing blanks render to ids with those blanks
+	IdTemplates = append(IdTemplates, "x.{{.timestamp", " {{.id}}.{{.timestamp}} ", "{{.timestamp}}-{{.id}}")
 	RouteTags = append(RouteTags, "null")
 	// ids whose derived callback ids collide: (root a, promise b:c) and (root a:b, promise c) both give __resume:a:b:c
 	ApiPromiseIds = append(ApiPromiseIds, "a", "c")
